@@ -155,7 +155,7 @@ class C10(SigBase):
         nthr = rng.choice([1, 2, 2, 2, 3])
         sigs = rng.choice([[10], [10], [10, 12]])
         be = rng.choice(["et", "et", "et", "ep", "pp", "po"])
-        secs = ["B" + be, "M%d" % rng.choice([40, 60])]
+        secs = ["B" + be, "M%d" % rng.choice([100, 160])]
         if rng.random() < 0.15:
             secs.append("Xnoeventfd")
         plain = nthr < 3 and rng.random() < 0.3
@@ -201,6 +201,7 @@ class C10(SigBase):
             for j in range(5):
                 if rng.random() < 0.6:
                     lists = [script(k, 3, in_sig_handler=True) if rng.random() < 0.7 else "-" for _ in range(rng.randint(1, 3))]
+                    lists.append(rng.choice(["-", "-", "gu%d" % j]))      # the last list repeats: it must not raise again
                     secs.append("H%dg%d:%s" % (k, j, "/".join(lists)))
         if plain:
             acts = []
@@ -355,7 +356,7 @@ class C11(SigBase):
         be = rng.choice(["et", "et", "ep", "pp", "po"])
         plain = nthr < 3 and rng.random() < 0.3
         tot = nthr + (1 if plain else 0)
-        secs = ["B" + be, "M%d" % rng.choice([80, 120]), "Z" + self.sched(rng, tot, rng.choice([0, 30, 80, 160]))]
+        secs = ["B" + be, "M%d" % rng.choice([160, 240]), "Z" + self.sched(rng, tot, rng.choice([0, 30, 80, 160]))]
         nstr = rng.randint(1, 4)            # children created as strangers: 0..nstr-1; spawned: nstr..5
 
         def status(c=None):
@@ -424,6 +425,9 @@ class C11(SigBase):
             "Bet;M40;Z0101010101010101;L0:is0=0.e0 cn1 kr0 tr7+5000000;L1:ir0=1 tr7+5000000;H0k0:cs1=s@1 cs1=c@0 cs1=e1;H0i0:iu0;H1i0:-/-/iu0;H0t7:iu0;H1t7:iu0",
             # unregister another interest from the handler while its events are queued
             "Bet;M30;L0:cn0 cn1 ir0=0 ir1=1 kr0 tr7+5000000;H0k0:cs0=s cs1=s cs1=c;H0i0:iu1;H0t7:iu0 iu1",
+            # several statuses in one completion, the first handler call unregisters: the rest must not be delivered
+            "Bet;M30;L0:cn0 ir0=0 kr0;H0k0:cs0=s cs0=c cs0=k9;H0i0:iu0",
+            "Bet;M30;L0:cn0 cn1 ir0=0 ir1=1 kr0 tr7+5000000;H0k0:cs0=s cs0=c cs1=s cs0=e0;H0i0:iu0 iu1;H0t7:iu0 iu1",
             # kill helper after the death was reaped but before the handler ran
             "Bet;M30;L0:cn0 ir0=0 kr0 tr7+5000000;H0k0:cs0=k9 y ik0=15;H0t7:ik0=9 iu0",
         ]
@@ -487,3 +491,154 @@ class C11(SigBase):
                 "unregister": sum(1 for t in toks if t.startswith("iu")), "kill": sum(1 for t in toks if t.startswith("ik")),
                 "status_changes": {k: sum(1 for t in toks if re.match(r"cs\d=%s" % k, t)) for k in ("s", "c", "e", "k")},
                 "status_with_chosen_receiver": sum(1 for t in toks if t.startswith("cs") and "@" in t)}
+
+
+# ------------------------------------------------------------------------------------------------
+class C19(SigBase):
+    pid = "C19"
+    extract_v = "Extract/ExtractPopen.v"
+    model_ml = "popen_model.ml"
+    driver_in = "popen_drv.ml.in"
+    open_module = "Popen_model"
+    coq_targets = ["theories/Misc/PopenModel.vo", "theories/Misc/PopenProofs.vo"]
+    corr_name = ("acceptance of the observable events of every popen child (close, signals with their times, reaps, loop exit) in the "
+                 "implementation's log by the Coq acceptor pcheck of Misc/PopenModel.v")
+    trusted = [
+        "virtual child processes and virtual time (harness/mt.c, vk.c): fork (parent side only), wait4, kill, the clock that jumps to the "
+        "earliest deadline when every thread is blocked -- the harness's model of the kernel; the child's reaction to signals is scripted "
+        "by the scenario (kill hook)",
+        "the child side of iv_popen (iv_popen_child: open /dev/null, dup2, close, execvp) never runs under the virtual fork: "
+        "C19_submit_result is a transcription lemma about Misc/PopenModel.child_script; the parent side (which end is returned, the other "
+        "end closed) is observed on the real code",
+        "modelled, not verified: the sequential model of Misc/PopenModel.v part 1 abstracts iv_wait (C11) as an interest with DEAD flag and "
+        "queue and the timer (C04) as an optional expiry; the tie to the code is the acceptor on the observable events, not trace equality",
+        "OCaml log parser ocaml/popen_drv.ml.in (per-pid projection; times are iv_now as logged by the harness next to each kill/close)",
+    ]
+    assumptions = [
+        "'ended' means 'termination reaped': a signal to a zombie that is not reaped yet cannot be excluded by a user-space library",
+        "nobody but the library reaps the child (no foreign waitpid); the request is closed at most once and not used afterwards",
+    ]
+    rule = ("scenarios = 1-3 popen requests (types r / w) in 1-2 loop threads, optionally a further thread whose own wait interest makes it "
+            "the reaper; child behaviours: exits at once (inside fork), dies from the n-th SIGTERM (n = 1..6, i.e. also only from SIGKILL), "
+            "ignores SIGTERM, exits or is killed on its own at a scripted virtual time (before the close, between two signals, after the "
+            "SIGKILL phase began), stop / continue noise; close from a task (at once), from a timer at a scripted time, from a handler, or "
+            "never; clock disturbances (ca) in a third of the cases (then signal times are checked as >= due, else = due). non-trivial = "
+            "a close and at least one signal, and one of: a SIGKILL, a reap between two signals, a close after the reaped death, a reap by "
+            "a thread other than the owner; distinct = distinct case text")
+
+    def gen(self, rng):
+        nthr = rng.choice([1, 1, 2])
+        reaper = rng.random() < 0.35
+        tot = nthr + (1 if reaper else 0)
+        be = rng.choice(["et", "et", "ep", "pp", "po"])
+        secs = ["B" + be, "M%d" % rng.choice([240, 320]), "Z" + self.sched(rng, tot, rng.choice([0, 40, 120]) if tot > 1 else 0)]
+        disturb = rng.random() < 0.33
+        child = 0
+        for k in range(nthr):
+            body, tm = [], 0
+            for j in range(rng.randint(1, 2)):
+                c = child
+                child += 1
+                beh = rng.choice(["e0", "e3", "t1", "t1", "t2", "t3", "t5", "t6", "i", "i"])
+                body.append("pr%d=%s.%d.%s" % (j, rng.choice("rw"), c, beh))
+                how = rng.random()
+                if how < 0.3:
+                    body.append("kr%d" % j)
+                    secs.append("H%dk%d:%s" % (k, j, rng.choice(["pc%d", "y pc%d", "pc%d y"]) % j))
+                elif how < 0.85 and tm < 6:
+                    body.append("tr%d+%d" % (tm, rng.choice([1000, 3000000000, 5000000000, 12000000000])))
+                    secs.append("H%dt%d:%s" % (k, tm, "pc%d" % j))
+                    tm += 1
+                # a spontaneous change of the child at some virtual time
+                if rng.random() < 0.6 and tm < 6:
+                    at = rng.choice([500, 2000000000, 5000000000, 7000000000, 13000000000, 26000000000, 27000000000, 33000000000])
+                    what = rng.choice(["cs%d=e0", "cs%d=k9", "cs%d=e5", "cs%d=s", "cs%d=s cs%d=c", "cs%d=c"]).replace("%d", str(c))
+                    if disturb and rng.random() < 0.5:
+                        what = "%s %s" % (" ".join(["ca2000000000"] * rng.randint(1, 3)), what)
+                    body.append("tr%d+%d" % (tm, at))
+                    secs.append("H%dt%d:%s" % (k, tm, what))
+                    tm += 1
+            if disturb and tm < 6:
+                body.append("tr%d+%d" % (tm, rng.choice([4000000000, 9000000000])))
+                secs.append("H%dt%d:%s" % (k, tm, " ".join(["ca%d" % rng.choice([1000000000, 2000000000])] * rng.randint(1, 4))))
+            rng.shuffle(body)
+            secs.append("L%d:%s" % (k, " ".join(body)))
+        if reaper:
+            k = nthr
+            secs.append("L%d:cn9 ir0=9 tr7+%d" % (k, rng.choice([40000000000, 60000000000])))
+            secs.append("H%dt7:cs9=e0" % k)
+            secs.append("H%di0:iu0" % k)
+        return ";".join(secs)
+
+    def fixed_cases(self):
+        out = []
+        # every death point relative to the signalling sequence: close at 1 s, the child dies on its own at T
+        for T in (500000000, 1000000000, 1000000001, 3000000000, 6000000000, 6000000001, 11000000000, 16000000000, 21000000000, 23000000000,
+                  26000000000, 28000000000, 31000000000, 36000000000):
+            out.append("Bet;M160;L0:pr0=r.0.i tr0+%d tr1+1000000000;H0t0:cs0=e0;H0t1:pc0" % T)
+        for b in ("e0", "t1", "t2", "t3", "t4", "t5", "t6", "i"):
+            for ty in "rw":
+                out.append("Bet;M160;L0:pr0=%s.0.%s kr0;H0k0:pc0" % (ty, b))
+        out.append("Bet;M160;Z0101010101010101010101;L0:pr0=r.0.t2 kr0;H0k0:pc0;L1:cn9 ir0=9 tr7+40000000000;H1t7:cs9=e0;H1i0:iu0")
+        out.append("Bet;M160;L0:pr0=r.0.i pr1=w.1.t1 kr0 tr0+7000000000;H0k0:pc0 pc1;H0t0:cs0=s cs0=c")
+        return out
+
+    def cases(self, ctx):
+        rng = vlib.rng_for(ctx.seed, "C19")
+        cases = list(self.fixed_cases())
+        self.n_fixed = len(cases)
+        n = 1200 if ctx.tier == "quick" else 30000
+        for _ in range(n):
+            cases.append(self.gen(rng))
+        self.n_gen = n
+        return cases
+
+    def nontrivial(self, case, log):
+        if not log or "A pc" not in log or ":Ki " not in log:
+            return False
+        segs = [s.strip() for s in log.split(" | ")]
+        owner, kills, feature, reaped_dead, closed = {}, {}, False, set(), set()
+        thr_req = {}
+        for s in segs:
+            if ":" not in s:
+                continue
+            t, ev = s.split(":", 1)
+            m = re.match(r"A pr(\d+) .*pid=(\d+)", ev)
+            if m:
+                owner[m.group(2)] = t
+                thr_req[(t, m.group(1))] = m.group(2)
+            m = re.match(r"Ki (\d+) (\d+) ok", ev)
+            if m:
+                kills[m.group(1)] = kills.get(m.group(1), 0) + 1
+                if m.group(2) == "9":
+                    feature = True
+            m = re.match(r"W4 (\d+) (\d+)$", ev.strip())
+            if m and m.group(1) in owner:
+                st = int(m.group(2))
+                if owner[m.group(1)] != t:
+                    feature = True
+                if st % 128 != 127:
+                    reaped_dead.add(m.group(1))
+                    if kills.get(m.group(1), 0) >= 1 and st not in (9, 15):
+                        feature = True          # died on its own between two signals
+            m = re.match(r"a pc(\d+)", ev)
+            if m and thr_req.get((t, m.group(1))) in reaped_dead:
+                feature = True
+        return feature
+
+    def signature(self, case, why):
+        return "c19:" + ("crash" if "CRASH" in why or "sanitizer" in why or "crashed" in why else "monitor")
+
+    def distribution(self, cases):
+        toks = [t for c in cases for s in c.split(";") if ":" in s for t in s.split(":", 1)[1].replace("/", " ").split()]
+        beh = {}
+        for t in toks:
+            m = re.match(r"pr\d=[rw]\.\d+\.(\w+)", t)
+            if m:
+                beh[m.group(1)] = beh.get(m.group(1), 0) + 1
+        return {"fixed": self.n_fixed, "generated": self.n_gen, "requests": sum(beh.values()), "behaviours": beh,
+                "type_r": sum(1 for t in toks if re.match(r"pr\d=r", t)), "type_w": sum(1 for t in toks if re.match(r"pr\d=w", t)),
+                "closes": sum(1 for t in toks if t.startswith("pc")),
+                "spontaneous_changes": sum(1 for t in toks if t.startswith("cs")),
+                "clock_disturbed_cases": sum(1 for c in cases if re.search(r"[: ]ca\d", c)),
+                "with_foreign_reaper_thread": sum(1 for c in cases if "cn9" in c)}
